@@ -285,7 +285,19 @@ class Filtration(PoupoolActor):
         # Stop
         self.__machine.add_transition(
             "halt",
-            ["eco", "heating", "standby", "overflow", "comfort", "sweep", "opening", "closing", "wash", "wintering"],
+            [
+                "eco",
+                "heating",
+                "standby",
+                "overflow",
+                "comfort",
+                "sweep",
+                "opening",
+                "closing",
+                "wash",
+                "wintering",
+                "reload",
+            ],
             "halt",
         )
         # (Back)wash
